@@ -51,7 +51,9 @@ fn verif_selector_driver() {
                 f[5..]
                     .iter()
                     .map(|h| {
-                        let p = Path::from(text(h));
+                        // paths are given as raw bytes (they need not be valid UTF-8)
+                        use std::os::unix::ffi::OsStringExt;
+                        let p = Path::from(std::path::PathBuf::from(std::ffi::OsString::from_vec(unhex(h))));
                         format!("{}{}", sel.matches_full_path(&p) as u8, sel.matches_dir(&p) as u8)
                     })
                     .collect::<Vec<_>>()
